@@ -195,7 +195,7 @@ func (w *worker) runCase(c *gcase, soft, hard, cpuBudget time.Duration) *caseRes
 			res.Outcomes = append(res.Outcomes, target+":PANIC")
 		case callHung:
 			res.Hangs = append(res.Hangs, target)
-			res.HangStacks = append(res.HangStacks, thunderStacks(nil)...)
+			res.HangStacks = append(res.HangStacks, hangStacks()...)
 			res.Outcomes = append(res.Outcomes, target+":HANG")
 		case callUndecided:
 			res.Undecided = append(res.Undecided, target)
@@ -283,9 +283,10 @@ func (w *worker) runCase(c *gcase, soft, hard, cpuBudget time.Duration) *caseRes
 	sock := &scriptSocket{frames: c.WS, outs: map[string]int{}, outTypes: map[string]bool{}, expect: map[string]bool{}}
 	sockWrites = &sock.writes
 	var owed []string
-	drainOutcome := vlib.Reached
+	drainOutcome := waitReached
+	var drainStacks []string
 	sock.drain = func(s *scriptSocket) {
-		drainOutcome = vlib.WaitCond(func() bool { return len(s.owed()) == 0 }, activity, soft, hard)
+		drainOutcome, drainStacks = waitEntry(func() bool { return len(s.owed()) == 0 }, activity, "(*conn).ServeJSONSocket", soft, hard)
 		owed = s.owed()
 	}
 	wsCtx, wsCancel := context.WithCancel(ctx)
@@ -313,9 +314,9 @@ func (w *worker) runCase(c *gcase, soft, hard, cpuBudget time.Duration) *caseRes
 		}
 		out(o)
 		if len(owed) > 0 && !readErr {
-			if drainOutcome == vlib.QuiescentNot && !anyRunnable(nil) {
+			if drainOutcome == waitStuck {
 				res.Hangs = append(res.Hangs, "ServeJSONSocket: no envelope for ids "+strings.Join(owed, ","))
-				res.HangStacks = append(res.HangStacks, thunderStacks(nil)...)
+				res.HangStacks = append(res.HangStacks, drainStacks...)
 			} else {
 				res.Undecided = append(res.Undecided, "ServeJSONSocket drain")
 			}
